@@ -43,6 +43,11 @@ struct Case {
     hs: Handshake,
     /// connect with a clone of the settings (as a pool or reconnect loop would)
     cloned: bool,
+    /// an ldaps URL and set_starttls(true) at once: still TLS from the first octet on
+    both: bool,
+    /// a custom TLS connector: "last" = set_connector() called after the other settings,
+    /// "first" = before them, "noverify-last" = a connector that accepts any certificate
+    connector: Option<&'static str>,
 }
 
 #[derive(Default, Debug, Clone)]
@@ -57,7 +62,8 @@ struct Seen {
 fn trusted_for(cert: &str, host: &str) -> bool {
     match cert {
         "good" => true,
-        "dnsonly" => host == "localhost",
+        // a URL without a host means localhost
+        "dnsonly" => host == "localhost" || host.is_empty(),
         _ => false,
     }
 }
@@ -197,12 +203,24 @@ fn err_kind(e: &LdapError) -> String {
 
 /// Ok(Some(rc of the bind after establishment)) / Ok(None) bind failed / Err(kind)
 fn attempt(c: &Case, port: u16) -> Result<Result<Option<u32>, String>, String> {
-    let url = format!("{}://{}:{}", if c.ldaps { "ldaps" } else { "ldap" }, c.host, port);
-    let (starttls, no_verify, cloned) = (!c.ldaps, c.no_verify, c.cloned);
+    let scheme = if c.ldaps { "ldaps" } else { "ldap" };
+    let url = if c.host.is_empty() { format!("{}:///", scheme) } else { format!("{}://{}:{}", scheme, c.host, port) };
+    let (starttls, no_verify, cloned, connector) = (!c.ldaps || c.both, c.no_verify, c.cloned, c.connector);
     catch(move || {
         let rt = tokio::runtime::Builder::new_current_thread().enable_all().build().unwrap();
         rt.block_on(async {
-            let settings = LdapConnSettings::new().set_starttls(starttls).set_no_tls_verify(no_verify).set_conn_timeout(Duration::from_millis(1500));
+            let custom = || {
+                let mut b = native_tls::TlsConnector::builder();
+                if connector == Some("noverify-last") {
+                    b.danger_accept_invalid_certs(true);
+                }
+                b.build().expect("connector")
+            };
+            let settings = match connector {
+                Some("first") => LdapConnSettings::new().set_connector(custom()).set_starttls(starttls).set_no_tls_verify(no_verify).set_conn_timeout(Duration::from_millis(1500)),
+                Some(_) => LdapConnSettings::new().set_starttls(starttls).set_no_tls_verify(no_verify).set_conn_timeout(Duration::from_millis(1500)).set_connector(custom()),
+                None => LdapConnSettings::new().set_starttls(starttls).set_no_tls_verify(no_verify).set_conn_timeout(Duration::from_millis(1500)),
+            };
             let settings = if cloned { settings.clone() } else { settings };
             match LdapConnAsync::with_settings(settings, &url).await {
                 Err(e) => Err(err_kind(&e)),
@@ -220,8 +238,14 @@ fn attempt(c: &Case, port: u16) -> Result<Result<Option<u32>, String>, String> {
     })
 }
 
-fn judge(rep: &Reporter, c: &Case) {
-    let listener = std::net::TcpListener::bind("127.0.0.1:0").expect("bind");
+fn judge(rep: &Reporter, c: &Case) -> bool {
+    // a URL without a host goes to localhost at the scheme's default port
+    let addr = if c.host.is_empty() { format!("127.0.0.1:{}", if c.ldaps { 636 } else { 389 }) } else { "127.0.0.1:0".to_string() };
+    let listener = match std::net::TcpListener::bind(&addr) {
+        Ok(l) => l,
+        Err(_) if c.host.is_empty() => return false, // default port not bindable here: case skipped
+        Err(e) => panic!("verif-machinery: cannot bind {}: {}", addr, e),
+    };
     let port = listener.local_addr().unwrap().port();
     let seen = Arc::new(Mutex::new(Seen::default()));
     let (c2, s2) = (c.clone(), seen.clone());
@@ -241,18 +265,18 @@ fn judge(rep: &Reporter, c: &Case) {
         Some(o) => o,
         None => {
             rep.violation("tls:setup-hangs", &format!("{:?}: establishment did not return within 8 s", c), replay);
-            return;
+            return true;
         }
     };
     let got = match out {
         Err(p) => {
             rep.violation("tls:panic", &format!("{:?}: panicked: {}", c, p), replay);
-            return;
+            return true;
         }
         Ok(g) => g,
     };
     let answer_ok = c.ldaps || matches!(c.answer, Answer::Rc(0) | Answer::Rc0PlusForgedFrame | Answer::Rc0PlusForgedPrefix);
-    let should_succeed = answer_ok && c.hs == Handshake::Normal && (c.no_verify || trusted_for(c.cert, c.host));
+    let should_succeed = answer_ok && c.hs == Handshake::Normal && (verification_off(c) || trusted_for(c.cert, c.host));
     let bad = |key: &str, why: String| {
         rep.violation(&format!("tls:{}", key), &format!("{:?}: {} (outcome {:?}, server saw {:?})", c, why, got, seen), replay.clone());
     };
@@ -305,6 +329,16 @@ fn judge(rep: &Reporter, c: &Case) {
         }
         (Err(_), false) => {}
     }
+    true
+}
+
+/// verification was explicitly disabled: by the setting, or by a caller-supplied connector built that way
+fn verification_off(c: &Case) -> bool {
+    match c.connector {
+        None => c.no_verify,
+        Some("noverify-last") => true,
+        Some(_) => false,
+    }
 }
 
 pub fn run(tier: Tier) -> i32 {
@@ -347,9 +381,9 @@ pub fn run(tier: Tier) -> i32 {
                                     continue;
                                 }
                             }
-                            cases.push(Case { ldaps, host, no_verify, cert, answer, hs, cloned: false });
+                            cases.push(Case { ldaps, host, no_verify, cert, answer, hs, cloned: false, both: false, connector: None });
                             if tier == Tier::Thorough || (cert == "good" && host == "localhost") {
-                                cases.push(Case { ldaps, host, no_verify, cert, answer, hs, cloned: true });
+                                cases.push(Case { ldaps, host, no_verify, cert, answer, hs, cloned: true, both: false, connector: None });
                             }
                         }
                     }
@@ -357,7 +391,50 @@ pub fn run(tier: Tier) -> i32 {
             }
         }
     }
-    let total = cases.len();
+    // an ldaps URL with StartTLS switched on as well
+    for cert in ["good", "wrongname"] {
+        for cloned in [false, true] {
+            cases.push(Case { ldaps: true, host: "localhost", no_verify: false, cert, answer: Answer::Rc(0), hs: Handshake::Normal, cloned, both: true, connector: None });
+        }
+    }
+    // a caller-supplied connector, set before or after the other settings: StartTLS, the refusal
+    // handling and the connector's own verification policy all stay in force
+    for ldaps in [true, false] {
+        for connector in ["last", "first", "noverify-last"] {
+            for cert in ["good", "wrongname", "selfsigned"] {
+                let answers: Vec<Answer> = if ldaps { vec![Answer::Rc(0)] } else { vec![Answer::Rc(0), Answer::Rc(2), Answer::Rc0PlusForgedFrame] };
+                for answer in answers {
+                    for cloned in [false, true] {
+                        if tier == Tier::Quick && cloned && cert != "good" {
+                            continue;
+                        }
+                        cases.push(Case { ldaps, host: "localhost", no_verify: false, cert, answer, hs: Handshake::Normal, cloned, both: false, connector: Some(connector) });
+                    }
+                }
+            }
+        }
+    }
+    // URLs without a host (localhost at the default port): run one at a time on the fixed ports
+    let mut hostless = vec![];
+    for ldaps in [true, false] {
+        for cert in certs {
+            for no_verify in [false, true] {
+                hostless.push(Case { ldaps, host: "", no_verify, cert, answer: Answer::Rc(0), hs: Handshake::Normal, cloned: false, both: false, connector: None });
+            }
+        }
+        hostless.push(Case { ldaps, host: "", no_verify: false, cert: "good", answer: if ldaps { Answer::Rc(0) } else { Answer::Rc(2) }, hs: if ldaps { Handshake::Garbage } else { Handshake::Normal }, cloned: false, both: false, connector: None });
+    }
+    let mut hostless_run = 0usize;
+    {
+        let _ports = super::lock_default_ports();
+        for c in &hostless {
+            if judge(&rep, c) {
+                hostless_run += 1;
+            }
+        }
+    }
+    let hostless_skipped = hostless.len() - hostless_run;
+    let total = cases.len() + hostless_run;
     // cases are independent (own listener each): run them 8 at a time
     let cases = Arc::new(cases);
     let next = std::sync::atomic::AtomicUsize::new(0);
@@ -372,11 +449,13 @@ pub fn run(tier: Tier) -> i32 {
             });
         }
     });
-    let succeed = cases.iter().filter(|c| (c.ldaps || matches!(c.answer, Answer::Rc(0) | Answer::Rc0PlusForgedFrame | Answer::Rc0PlusForgedPrefix)) && c.hs == Handshake::Normal && (c.no_verify || trusted_for(c.cert, c.host))).count();
+    let succeed = cases.iter().chain(hostless.iter().take(hostless_run)).filter(|c| (c.ldaps || matches!(c.answer, Answer::Rc(0) | Answer::Rc0PlusForgedFrame | Answer::Rc0PlusForgedPrefix)) && c.hs == Handshake::Normal && (verification_off(c) || trusted_for(c.cert, c.host))).count();
     let c = cov(vec![
         ("evaluations", json!(total)),
         ("distinct_nontrivial", json!(total)),
-        ("rule", json!("product of {ldaps, ldap+StartTLS} x URL host {localhost, 127.0.0.1} x no_tls_verify x certificate {CA-signed for localhost+127.0.0.1, CA-signed for localhost only, CA-signed for another name, self-signed} x StartTLS answer {rc 0, rc 1/2/52/53/80, garbage, close, rc 0 + complete forged cleartext BindResponse, rc 0 + forged frame prefix completed by the genuine in-TLS answer, success under a wrong message ID} x handshake {normal, close, garbage} (quick: a covering subset); every case runs the real LdapConnAsync::with_settings against a TLS server on 127.0.0.1 built with native-tls and the test PKI; each case is distinct")),
+        ("rule", json!("product of {ldaps, ldap+StartTLS} x URL host {localhost, 127.0.0.1} x no_tls_verify x certificate {CA-signed for localhost+127.0.0.1, CA-signed for localhost only, CA-signed for another name, self-signed} x StartTLS answer {rc 0, rc 1/2/52/53/80, garbage, close, rc 0 + complete forged cleartext BindResponse, rc 0 + forged frame prefix completed by the genuine in-TLS answer, success under a wrong message ID} x handshake {normal, close, garbage} (quick: a covering subset); plus ldaps with StartTLS also switched on, a caller-supplied connector (verifying / accepting anything) set before or after the other settings, and URLs without a host (localhost at 636/389, all four certificates x verification); every case runs the real LdapConnAsync::with_settings against a TLS server on 127.0.0.1 built with native-tls and the test PKI; each case is distinct")),
+        ("hostless_url_cases_run", json!(hostless_run)),
+        ("hostless_url_cases_skipped_port_not_bindable", json!(hostless_skipped)),
         ("cases_that_must_succeed", json!(succeed)),
         ("cases_that_must_fail", json!(total - succeed)),
         ("samples", json!([format!("{:?}", cases[0]), format!("{:?}", cases[cases.len() / 2])])),
